@@ -174,15 +174,45 @@ CHARTS = {
     "star-power": mk(res=4, sync=SYNC, events=EVENTS, tracks={"ExpertSingle": ["0 = S 2 4", "0 = N 0 0", "3 = N 1 2", "4 = N 2 0", "8 = S 2 0", "8 = N 3 0", "9 = S 2 9", "10 = N 0 0", "10 = N 6 0"]}),
 }
 
+# how a chart of the corpus is PARSED (a chart obtained through any entry mode is a parsed chart): selection
+# None unless listed here
+WANT = {
+    "several/empty-list": [],
+    "several/empty-tuple": (),
+    "several/one-selected": [("GUITAR", "EXPERT")],
+    "several/absent-selected": [("GHL_COOP", "MEDIUM")],
+    "no-tracks/empty-list": [],
+}
+for _k in WANT:
+    CHARTS[_k] = CHARTS[_k.split("/")[0]]
+
+
+def parse_chart(cname):
+    w = WANT.get(cname)
+    if w is None:
+        return impl.parse(CHARTS[cname])
+    sel = [(impl.P.Instrument[i], impl.P.Difficulty[d]) for i, d in w]
+    return impl.parse(CHARTS[cname], want_tracks=sel if isinstance(w, list) else tuple(sel))
+
+
 SCRIPT = """{observe_src}
 {prelude}
 text = {text!r}
 ops = {ops!r}   # (name, expression) applied in this order to chart c
-c = Chart.from_file(io.StringIO(text)); twin = Chart.from_file(io.StringIO(text))
+want = {want!r}   # selection the chart was parsed with (None: no selection)
+def _parse():
+    if want is None:
+        return Chart.from_file(io.StringIO(text))
+    sel = [(Instrument[i], Difficulty[d]) for i, d in want]
+    return Chart.from_file(io.StringIO(text), want_tracks=sel if isinstance(want, list) else tuple(sel))
+c = _parse(); twin = _parse()
 def state():
-    o = observe(c)
-    o["track_map_order"] = [[i.name, [d.name for d in dd]] for i, dd in c.instrument_tracks.items()]
-    o["str"], o["repr"] = str(c), repr(c)
+    try:
+        o = observe(c)
+        o["track_map_order"] = [[i.name, [d.name for d in dd]] for i, dd in c.instrument_tracks.items()]
+        o["str"], o["repr"] = str(c), repr(c)
+    except Exception as e:   # a chart that can no longer be observed has changed
+        o = dict(unobservable="%s: %s" % (type(e).__name__, e))
     return (o, c == twin, twin == c)
 s0 = state()
 bad = 0
@@ -230,11 +260,14 @@ def plan(tier, seed):
 
 
 def fingerprint(c, twin):
-    o = impl.observe(c)
-    # order-sensitive public data: iteration order of the track map and the chart's own rendering
-    o["track_map_order"] = [[i.name, [d.name for d in dd]] for i, dd in c.instrument_tracks.items()]
-    o["str"] = str(c)
-    o["repr"] = repr(c)
+    try:
+        o = impl.observe(c)
+        # order-sensitive public data: iteration order of the track map and the chart's own rendering
+        o["track_map_order"] = [[i.name, [d.name for d in dd]] for i, dd in c.instrument_tracks.items()]
+        o["str"] = str(c)
+        o["repr"] = repr(c)
+    except Exception as e:  # noqa: BLE001 - a chart that can no longer be observed has changed
+        o = dict(unobservable="%s: %s" % (type(e).__name__, e), keys=repr(list(c.instrument_tracks))[:300])
     return o, (c == twin), (twin == c)
 
 
@@ -248,7 +281,7 @@ def apply(c, name):
 
 
 def run_seq(ctx, cname, text, seq, twin, s0, states):
-    c = impl.parse(text)
+    c = parse_chart(cname)
     for k, name in enumerate(seq):
         r = apply(c, name)
         ctx.edges += 1
@@ -274,17 +307,17 @@ def run_seq(ctx, cname, text, seq, twin, s0, states):
 
 def _report(ctx, cname, text, seq, key, msg):
     ops = [[n, OPS[n]] for n in seq]
-    ctx.violation(key, dict(chart=cname, ops=list(seq)), msg, script=SCRIPT.format(observe_src=impl.OBSERVE_SRC, prelude=PRELUDE, text=text, ops=ops))
+    ctx.violation(key, dict(chart=cname, ops=list(seq)), msg, script=SCRIPT.format(observe_src=impl.OBSERVE_SRC, prelude=PRELUDE, text=text, ops=ops, want=WANT.get(cname)))
 
 
 def run_shard(shard, ctx):
     cname, D, lo, hi = shard
     text = CHARTS[cname]
-    twin = impl.parse(text)
-    c0 = impl.parse(text)
+    twin = parse_chart(cname)
+    c0 = parse_chart(cname)
     s0 = fingerprint(c0, twin)
     if not (s0[1] and s0[2]):
-        ctx.violation("twin-unequal", dict(chart=cname, ops=[]), "two parses of the same text are not equal (chart %s)" % cname, script=SCRIPT.format(observe_src=impl.OBSERVE_SRC, prelude=PRELUDE, text=text, ops=[]).replace("s0 = state()", "s0 = state()\nif not (s0[1] and s0[2]):\n    print('VIOLATED: two parses of the same text are not equal'); sys.exit(1)"))
+        ctx.violation("twin-unequal", dict(chart=cname, ops=[]), "two parses of the same text are not equal (chart %s)" % cname, script=SCRIPT.format(observe_src=impl.OBSERVE_SRC, prelude=PRELUDE, text=text, ops=[], want=WANT.get(cname)).replace("s0 = state()", "s0 = state()\nif not (s0[1] and s0[2]):\n    print('VIOLATED: two parses of the same text are not equal'); sys.exit(1)"))
         return
     states = {hashlib.sha1(json.dumps(s0, sort_keys=True, default=str).encode()).hexdigest()}
     for first in OPNAMES[lo:hi]:
@@ -296,7 +329,7 @@ def run_shard(shard, ctx):
                 ctx.case((cname, seq), sample=lambda: dict(chart=cname, ops=[[n, OPS[n]] for n in seq]))
                 run_seq(ctx, cname, text, seq, twin, s0, states)
     # the shared twin must still be pristine
-    t2 = impl.parse(text)
+    t2 = parse_chart(cname)
     if impl.observe(twin) != impl.observe(t2) or twin != t2:
         ctx.violation("twin-changed", dict(chart=cname, ops=[]), "operations on one chart changed a different chart object parsed from the same text")
     ctx.extra["distinct_fingerprints_max_per_shard"] = 0
@@ -309,8 +342,8 @@ def replay(case):
 
     ctx = Ctx(0, time.time() + 600)
     text = CHARTS[case["chart"]]
-    twin = impl.parse(text)
-    s0 = fingerprint(impl.parse(text), twin)
+    twin = parse_chart(case["chart"])
+    s0 = fingerprint(parse_chart(case["chart"]), twin)
     if not (s0[1] and s0[2]):
         return [dict(key="twin-unequal", msg="two parses of the same text are not equal", case=case)]
     run_seq(ctx, case["chart"], text, tuple(case["ops"]), twin, s0, set())
